@@ -331,6 +331,23 @@ def oracle_extract(inp, name, replace, want_file, out, pfile):
 
 
 # ---------------------------------------------------------------- implementation access
+STALE = b"\xa5" * 100000      # content of every output path before the call: a rebuild writes over a longer, older file
+
+
+def _stale(*paths):
+    for p in paths:
+        with open(p, "wb") as fh:
+            fh.write(STALE)
+
+
+def _written(path):
+    """bytes the tool wrote to an output path that held the stale content, None when it wrote nothing"""
+    if not os.path.exists(path):
+        return None
+    b = open(path, "rb").read()
+    return None if b == STALE else b
+
+
 def impl_from_envelope(tmp, eb, omit, dep, data):
     import suit_generator.cmd_cache_create as m
     m.log.disabled = True
@@ -339,11 +356,12 @@ def impl_from_envelope(tmp, eb, omit, dep, data):
         pin, pout, pc = os.path.join(d, "in.suit"), os.path.join(d, "out.suit"), os.path.join(d, "cache.bin")
         with open(pin, "wb") as fh:
             fh.write(data)
+        _stale(pout, pc)
         try:
             m.main(cache_create_subcommand="from_envelope", eb_size=eb, input_envelope=pin, output_envelope=pout,
                    omit_payload_regex=omit, dependency_regex=dep, output_file=pc)
         except Exception:
-            if os.path.exists(pout) or os.path.exists(pc):
+            if _written(pout) is not None or _written(pc) is not None:
                 raise FileWritten()
             raise
         return open(pc, "rb").read(), open(pout, "rb").read()
@@ -366,8 +384,15 @@ def impl_extract(tmp, data, name, replace, want_file):
         if replace is not None:
             with open(pr, "wb") as fh:
                 fh.write(replace)
+        if want_file == "same" and replace is not None:
+            pp = pr                     # in-place swap: the extracted payload goes to the file the replacement is read from
+            _stale(pout)
+            m.main(pin, pout, name, pp, pr)
+            got = open(pp, "rb").read()
+            return open(pout, "rb").read(), (None if got == replace else got)
+        _stale(pout, pp)
         m.main(pin, pout, name, pp if want_file else None, pr if replace is not None else None)
-        return open(pout, "rb").read(), (open(pp, "rb").read() if os.path.exists(pp) else None)
+        return open(pout, "rb").read(), _written(pp)
     finally:
         shutil.rmtree(d, ignore_errors=True)
 
@@ -388,9 +413,10 @@ def cli_from_envelope(tmp, eb, omit, dep, data):
             args.append("--omit-payload-regex=" + omit)
         if dep is not None:
             args.append("--dependency-regex=" + dep)
+        _stale(pout, pc)
         rc = cli(args, d)
         if rc:
-            return ("exn", f"cli-exit-{rc}", os.path.exists(pout) or os.path.exists(pc))
+            return ("exn", f"cli-exit-{rc}", _written(pout) is not None or _written(pc) is not None)
         return ("ok", (open(pc, "rb").read(), open(pout, "rb").read()))
     finally:
         shutil.rmtree(d, ignore_errors=True)
@@ -402,15 +428,23 @@ def cli_extract(tmp, data, name, replace, want_file):
         pin, pout, pp, pr = (os.path.join(d, x) for x in ("in.suit", "out.suit", "payload.bin", "replace.bin"))
         open(pin, "wb").write(data)
         args = ["payload_extract", "--input-envelope", pin, "--output-envelope", pout, "--payload-name=" + name]
+        same = want_file == "same" and replace is not None
+        if same:
+            pp = os.path.join(os.path.basename(d), "..", os.path.basename(d), "replace.bin")      # the same file, spelled as a relative path
+            pp = os.path.join(d, "..", os.path.basename(d), "replace.bin")
         if want_file:
             args += ["--output-payload-file", pp]
         if replace is not None:
             open(pr, "wb").write(replace)
             args += ["--payload-replace-path", pr]
+        _stale(pout) if same else _stale(pout, pp)
         rc = cli(args, d)
         if rc:
             return ("exn", f"cli-exit-{rc}")
-        return ("ok", (open(pout, "rb").read(), open(pp, "rb").read() if os.path.exists(pp) else None))
+        if same:
+            got = open(pr, "rb").read()
+            return ("ok", (open(pout, "rb").read(), None if got == replace else got))
+        return ("ok", (open(pout, "rb").read(), _written(pp)))
     finally:
         shutil.rmtree(d, ignore_errors=True)
 
@@ -614,7 +648,7 @@ def check_pe(ck, tmp, stream, cases, via="lib", model=True):
     fails = []
     mres = [None] * len(cases)
     if model:
-        mres = ck.model([["payload_extract", d, n.encode("utf-8"), r, w] for d, n, r, w in cases])
+        mres = ck.model([["payload_extract", d, n.encode("utf-8"), r, bool(w)] for d, n, r, w in cases])
     for (data, name, replace, want_file), mr in zip(cases, mres):
         ires = cli_extract(tmp, data, name, replace, want_file) if via == "cli" else run_impl(impl_extract, tmp, data, name, replace, want_file)
         try:
@@ -711,6 +745,8 @@ def extract_stream(ck, tmp):
             for rep in ([None, gen_bytes(rng)] if i % 2 else [None, b"", gen_bytes(rng)]):
                 for wf in (True, False):
                     cases.append((data, nm, rep, wf))
+                if rep is not None and i % 3 == 0:
+                    cases.append((data, nm, b"\xfe\x01same" + rep, "same"))          # payload file and replacement file are one file
     tag = lambda m: cbor2.dumps(cbor2.CBORTag(107, m))  # noqa: E731
     cases += [(tag({3: b"m", "a": "text"}), "a", None, True), (tag({3: b"m", "a": None}), "a", None, False),
               (tag({3: b"m", "a": b"1", 5: b"q"}), "a", b"new", True), (tag({"a": b"1"}), "a", None, True)]
